@@ -4,25 +4,46 @@ import json
 from vplib import common, oracle
 from props import C19 as R
 
-LEVEL = "exploration"
-CLAIMED = False      # the minimal theorem extract_var_preserves (DESIGN.md section 6) is not proved yet: search only
-RULE = ("Search on the real binary only (no Coq theorem yet): generated ASSIGNMENT-FREE programs (no `=`/`+=`, no while; "
-        "lets that shadow, if/for/match blocks, closures, top-level functions) -> every PURE sub-expression (no "
-        "println/dbg, calls only of functions/closures whose bodies are pure) by exact byte range through "
-        "extract-variable and extract-function with a fresh name, and runs of sibling statements of a block through "
-        "extract-function: the output must parse, and it must print the same stdout and end with the same result as the "
-        "original (all generated programs run without error). Refusals are counted. Non-trivial: the extracted "
-        "expression contains a variable.")
+LEVEL = "proof"
+CLAIMED = True
+RULE = ("Coq: Properties/C20.v (extract_var_preserves_partial over Scope.v / Refactor.extract_var: extracting a pure "
+        "sub-expression at a covered position of a top-level statement into `let x = e` with a fresh x keeps every event and "
+        "the result). Dynamic, on the real binary: (1) tie of the model: on generated programs, for every position that the "
+        "theorem covers (Python mirror of Refactor.covered_stmt / pure), `garden reftest-extract-variable` must produce "
+        "exactly the text of the model's transformation (the `let` right before the top-level statement, the occurrence "
+        "replaced); (2) search: generated ASSIGNMENT-FREE programs (no `=`/`+=`, no while; lets that shadow, if/for/match "
+        "blocks, closures, top-level functions) -> every PURE sub-expression (no println/dbg, calls only of "
+        "functions/closures whose bodies are pure), wherever it is, by exact byte range through extract-variable and "
+        "extract-function with a fresh name, and runs of sibling statements of a block through extract-function: the output "
+        "must parse, print the same stdout and end with the same result as the original (all generated programs run without "
+        "error). Refusals are counted. Non-trivial: the extracted expression contains a variable.")
 META = {
-    "technique": "property-directed search on the binary (extract-variable / extract-function at every pure sub-expression "
-                 "and sibling-statement run of generated assignment-free programs); no theorem yet",
-    "level_text": ("NOT CLAIMED as proof: extract_var_preserves is not stated/proved yet. The driver runs the search described "
-                   "in `rule` and reports concrete failing inputs."),
-    "level_note": "search only; see tools/props/C20.py CLAIMED = False",
+    "technique": "Coq proof over a hand-written model (reference semantics + extract_var) for a stated fragment of positions + "
+                 "text-level tie of the model's transformation to `garden reftest-extract-variable` + property-directed "
+                 "search on the binary (extract-variable / extract-function at every pure sub-expression and "
+                 "sibling-statement run of generated assignment-free programs)",
+    "level_text": ("Coq theorem extract_var_preserves_partial: for a program of the model language (Scope.v), a top-level "
+                   "statement s (let / assignment / expression statement), a PURE selected sub-expression e (literals, "
+                   "variables, operators) at a COVERED position (reached through operator operands, callee, call arguments, "
+                   "dbg/println arguments or an if-condition, with everything Garden evaluates before it inside s pure: "
+                   "operands to the left, the callee, arguments to the right) and a name x that occurs nowhere in the "
+                   "program: if the original ends without error with events out and result v, the program "
+                   "`.. let x = e; s[e := x] ..` ends with the same events and result. PARTIAL: positions inside nested "
+                   "blocks, closure bodies, loops and function bodies, positions after an impure sub-expression, and all of "
+                   "extract-function are covered by the search on the binary only."),
+    "level_note": ("Trusted: Coq kernel; the hand-written model Scope.v/Refactor.v (the semantics is tied to the evaluator by "
+                   "differential execution in C19's driver; extract_var is tied to extract_variable.rs by comparing the "
+                   "refactoring's output text with the model's transformation re-implemented on the source text in this "
+                   "driver, NOT by running the extracted Coq function); hook ops run / refactor (violations are re-run "
+                   "through the plain CLI). extract-function has no theorem. Known finding: "
+                   "C20:extract-function:local-shadows-function."),
     "design_ref": "DESIGN.md section 5 C20",
 }
 TRUSTED = [
-    "tools/props/C19.py generator / printer / purity analysis",
+    "Coq 8.16.1 kernel (coqc); vm_compute only in the Example",
+    "coq/Scope.v (reference semantics) and coq/Refactor.v (extract_var, pure, covered_*) are HAND-WRITTEN models; the "
+    "semantics is tied to the evaluator by C19's differential runs, extract_var by the text-level comparison of this driver",
+    "tools/props/C19.py generator / printer / purity analysis; the Python mirror of covered_stmt in tools/props/C20.py",
     "cfg-gated hook ops run, refactor (src/verif_hooks.rs); reported violations are confirmed through the plain CLI",
 ]
 FEATURES = R.ALL_FEATURES - {"assign", "update", "while", "dbg"}
@@ -122,6 +143,79 @@ def uses_after(block, j, binder_ids, prog):
     return hit[0]
 
 
+MODEL_OPS = ("+", "-", "*", "<", "<=", ">", ">=", "==", "!=", "&&", "||")
+
+
+def m_pure(e):
+    """Mirror of Refactor.pure (parentheses are not a node of the model)."""
+    k = e["k"]
+    if k in ("int", "bool", "var"):
+        return True
+    if k == "paren":
+        return m_pure(e["e"])
+    if k == "bin":
+        return e["op"] in MODEL_OPS and m_pure(e["l"]) and m_pure(e["r"])
+    return False
+
+
+def m_covered(e, out, paren=None):
+    """Mirror of Refactor.covered_expr: collects (node, enclosing parenthesis node or None) for every covered position."""
+    k = e["k"]
+    if k == "paren":
+        m_covered(e["e"], out, e)
+        return
+    out.append((e, paren))
+    if k == "bin" and e["op"] in MODEL_OPS:
+        m_covered(e["l"], out)
+        if m_pure(e["l"]):
+            m_covered(e["r"], out)
+    elif k == "call":
+        m_covered(e["f"], out)
+        if m_pure(e["f"]):
+            args = e["args"]
+            for j, a in enumerate(args):
+                if all(m_pure(b) for b in args[j + 1:]):
+                    m_covered(a, out)
+    elif k == "if":
+        m_covered(e["c"], out)
+    elif k in ("dbg", "println"):
+        m_covered(e["e"], out)
+
+
+def model_tie(ctx, exe, progs):
+    """Positions covered by extract_var_preserves_partial: garden's output must be the text of the model's transformation."""
+    jobs, meta = [], []
+    for prog in progs:
+        src, pr = R.render(prog, ctx.rng)
+        sb = src.encode("utf-8")
+        for it in prog:
+            k = it["k"]
+            if k == "fundef" or k in ("while", "for", "match") or (k == "assign" and it["op"] != "="):
+                continue
+            nodes = []
+            m_covered(it["e"] if k in ("let", "assign") else it, nodes)
+            st0 = it["sp"][0]
+            for n, paren in nodes:
+                if not m_pure(n):
+                    continue
+                rs, re_ = (paren or n)["sp"]
+                ns, ne = n["sp"]
+                exp = (sb[:st0] + b"let " + R.FRESH.encode() + b" = " + sb[ns:ne] + b"\n" + sb[st0:rs] + R.FRESH.encode()
+                       + sb[re_:]).decode("utf-8")
+                jobs.append(("extract-variable", src, ns, ne, R.FRESH))
+                meta.append({"src": src, "range": [ns, ne], "expected": exp, "kind": n["k"]})
+    ctx.log("model tie: %d covered positions" % len(jobs))
+    outs = R.refactor_many(exe, jobs, ctx)
+    bad = []
+    for m, (rc, out, err) in zip(meta, outs):
+        ctx.stat("model-covered position compared (%s)" % m["kind"])
+        if rc != 0 or out != m["expected"]:
+            bad.append({"src": m["src"], "range": m["range"], "model": m["expected"], "impl": out if rc == 0 else err})
+    if bad:
+        ctx.broken("correspondence:extract_var", "%d of %d covered positions: reftest-extract-variable differs from the model's "
+                   "transformation, e.g. %s" % (len(bad), len(meta), json.dumps(bad[0])[:1500]))
+
+
 def search(ctx, exe, progs, per_prog):
     jobs, meta = [], []
     for prog in progs:
@@ -194,6 +288,7 @@ def search(ctx, exe, progs, per_prog):
 
 def run(ctx):
     ctx.trusted = TRUSTED
+    ctx.coq("Properties/C20.v")
     exe = ctx.impl()
     if not exe:
         return
@@ -201,6 +296,7 @@ def run(ctx):
     fast = R.hook_supported(exe)
     n = (300 if ctx.thorough else 14) if fast else (50 if ctx.thorough else 6)
     progs = [R.gen_program(rng, size=6, features=FEATURES) for _ in range(n)]
+    model_tie(ctx, exe, progs + [R.gen_program(rng, size=6, features=R.MODEL_FEATURES) for _ in range(n // 2)])
     search(ctx, exe, progs, (10 ** 6 if ctx.thorough else 40) if fast else 16)
 
 
